@@ -24,6 +24,7 @@ import os
 import numpy as np
 import pandas as pd
 
+import re
 from runtime import ds_read as D
 from runtime.harness import Case, tmpdir, import_fastparquet
 
@@ -31,7 +32,7 @@ G = "c06.partial"
 G_IDX = "c06.index_views"
 CONTRACT = "P(pf) == the part of pf.to_pandas() that the access program P stands for; reported counts == rows read"
 
-DATASETS = list(D.QUICK)
+DATASETS = list(D.QUICK) + list(D.CAT_GROWS)
 FOREIGN = ["nation.plain.parquet", "test.parquet", "split", "multi_rgs_pyarrow", "datapage_v2.snappy.parquet",
            "foo.parquet", "no_columns.parquet", "empty.parquet", "spark-date-empty-rg.parq", "baz.parquet",
            "test-timezone.parquet", "decimals.parquet", "mr_times.parq", "metas.parq", "evo"]
@@ -393,6 +394,31 @@ def _empty_sel(got_src, nrg):
     return bool(m) and len(range(nrg)[eval(m.group(1))]) == 0
 
 
+def _in_child(fn):
+    """run fn() -> (what, iv) in a forked child; a child killed by the real library is a failed case"""
+    import pickle
+    r, w = os.pipe()
+    pid = os.fork()
+    if pid == 0:
+        try:
+            os.close(r)
+            os.write(w, pickle.dumps(fn()))
+        finally:
+            os._exit(0)
+    os.close(w)
+    buf = b""
+    while True:
+        chunk = os.read(r, 65536)
+        if not chunk:
+            break
+        buf += chunk
+    os.close(r)
+    _, st = os.waitpid(pid, 0)
+    if not buf:
+        return "the interpreter DIED (wait status %d) while the real library ran this program" % st, True
+    return pickle.loads(buf)
+
+
 def run_dataset(args):
     root, name, tier = args
     fp = import_fastparquet()
@@ -409,29 +435,40 @@ def run_dataset(args):
     env.update({"pf": pf, "full": full, "full0": pf.to_pandas(index=False), "offs": info["offs"], "rg_rows": info["rg_rows"], "path": ds.path,
                 "fastparquet": fp, "counts0": counts(pf)})
     res = []
+    # a dataset whose categorical dictionary grows from row group to row group: reading its row groups in DESCENDING order leaves the
+    # labels of the shortest dictionary with codes of the longer ones (known defect) and pandas then dies with SIGSEGV on access -
+    # every program of such a dataset runs in a forked child, a dead child is a failed case
+    grows = bool(ds.feats.get("cat_dictionary_grows"))
     for feats, got_src, exp_src, by_name in programs(info, tier):
+        # the program fills ONE frame with the categorical column of several row groups taken in descending order (negative slice step;
+        # not row group by row group, not counts only, not a column subset, not a head that stops inside the first row group read)
+        desc = bool(re.search(r"slice\([^()]*, [^()]*, -1\)|::-1", got_src)) and not re.search(
+            r"iter_row_groups|counts\(|columns=|head\((0|1)\)|\[::-1\]\[0\]", got_src)
+        feats = dict(feats, cat_dictionary_grows=grows, descending_selection=desc)
         feats = dict(feats, ds=ds.name, scheme=pf.file_scheme, written_index=ds.index_kind if not ds.foreign else
                      ("file" if info["index_col"] else "none"), nparts=len(info["parts"]),
                      pandas_md=bool(pf.has_pandas_metadata),
                      restored_read=(("pickle." in got_src or "copy." in got_src) and
                                     (".to_pandas(" in got_src or ".head(" in got_src)),
                      empty_selection=_empty_sel(got_src, info["nrg"]))
-        what = None
-        iv = True
-        try:
-            exp = eval(exp_src, env)
-            got = eval(got_src, env)
-            if isinstance(exp, pd.DataFrame):
-                if not isinstance(got.index, (pd.RangeIndex, pd.MultiIndex)):
-                    k = got.index.dtype
-                    kind = "category" if isinstance(k, pd.CategoricalDtype) else ("M" if k.kind == "M" else k.kind)
-                    kind = {"u": "i"}.get(kind, kind)
-                    iv = alias_ok.get(kind, True)
-                what = same(got, exp, by_name=by_name, index_values=iv)
-            elif got != exp:
-                what = "%r != expected %r" % (got, exp)
-        except Exception as e:
-            what = "%s: %s" % (type(e).__name__, str(e)[:200])
+        def evaluate():
+            what, iv = None, True
+            try:
+                exp = eval(exp_src, env)
+                got = eval(got_src, env)
+                if isinstance(exp, pd.DataFrame):
+                    if not isinstance(got.index, (pd.RangeIndex, pd.MultiIndex)):
+                        k = got.index.dtype
+                        kind = "category" if isinstance(k, pd.CategoricalDtype) else ("M" if k.kind == "M" else k.kind)
+                        kind = {"u": "i"}.get(kind, kind)
+                        iv = alias_ok.get(kind, True)
+                    what = same(got, exp, by_name=by_name, index_values=iv)
+                elif got != exp:
+                    what = "%r != expected %r" % (got, exp)
+            except Exception as e:
+                what = "%s: %s" % (type(e).__name__, str(e)[:200])
+            return what, iv
+        what, iv = _in_child(evaluate) if grows else evaluate()
         if feats["access"] == "filelike-chain":
             iv = iv_full
         feats["index_values_compared"] = bool(iv)
